@@ -759,6 +759,40 @@ func (env *Env) tr(x Expr) (Term, error) {
 		}
 		return indexTerm(a, i)
 	case *ECall:
+		// record update: rec[Field := v]
+		if x.Fn == "store" && len(x.Args) == 3 {
+			if id, ok := x.Args[1].(*EIdent); ok {
+				if _, bound := env.Vars[id.Name]; !bound {
+					rec, err := env.tr(x.Args[0])
+					if err != nil {
+						return rec, err
+					}
+					if si, ok := sg.Structs[rec.Sort]; ok {
+						v, err := env.tr(x.Args[2])
+						if err != nil {
+							return v, err
+						}
+						parts := make([]string, len(si.Fields))
+						found := false
+						for i, f := range si.Fields {
+							if f.Name == id.Name {
+								if f.Sort != v.Sort {
+									return v, fmt.Errorf("field %s has sort %s, got %s", f.Name, f.Sort, v.Sort)
+								}
+								parts[i] = v.S
+								found = true
+							} else {
+								parts[i] = "(" + f.Sel + " " + rec.S + ")"
+							}
+						}
+						if !found {
+							return rec, fmt.Errorf("sort %s has no field %s", rec.Sort, id.Name)
+						}
+						return Term{"(" + si.Ctor + " " + strings.Join(parts, " ") + ")", rec.Sort}, nil
+					}
+				}
+			}
+		}
 		var args []Term
 		for _, a := range x.Args {
 			t, err := env.tr(a)
